@@ -681,6 +681,13 @@ func (u *Unit) contractCall(f *Frame, st *State, con *Contract, callee *ssa.Func
 			u.oblige(f, st, "pre", short+":"+r.label(), t, pos)
 		}
 	}
+	// reachability of the call itself (thorough tier): the after-call guard below only speaks
+	// about what the assumed postcondition adds
+	var beforeOb *Obligation
+	if vacuityCalls && !f.pure && len(con.Ensures) > 0 && !u.ctx.isGhostFile(u.fn) {
+		beforeOb = &Obligation{Name: fmt.Sprintf("%s#vacuity#before-call%d:%s", u.unitName(), u.vacN+1, short), Kind: "vacuity", At: len(u.em.lines), PC: st.pc, Goal: "false", Func: u.unitName(), Unit: u}
+		u.em.obls = append(u.em.obls, beforeOb)
+	}
 	// frame
 	u.havocAssigns(f, st, env, con, pos)
 	// results
@@ -714,7 +721,7 @@ func (u *Unit) contractCall(f *Frame, st *State, con *Contract, callee *ssa.Func
 		// condition is a proof by contradiction, and the unreachable continuation is intended)
 		// the assumed postcondition must not make the continuation unreachable
 		u.vacN++
-		u.em.obls = append(u.em.obls, &Obligation{Name: fmt.Sprintf("%s#vacuity#after-call%d:%s", u.unitName(), u.vacN, short), Kind: "vacuity", At: len(u.em.lines), PC: st.pc, Goal: "false", Func: u.unitName(), Unit: u})
+		u.em.obls = append(u.em.obls, &Obligation{Name: fmt.Sprintf("%s#vacuity#after-call%d:%s", u.unitName(), u.vacN, short), Kind: "vacuity", At: len(u.em.lines), PC: st.pc, Goal: "false", Func: u.unitName(), Unit: u, Before: beforeOb})
 	}
 	return results
 }
